@@ -4,6 +4,56 @@ From Verif Require Import Sexp UnitAlg UnitAlgP Expr Eval EvalP UnitCalc UnitCal
 Import ListNotations.
 Open Scope R_scope.
 
+(* ---- float(exponent) ------------------------------------------------------------------------------------- *)
+Fixpoint xsum (l : list expr) : xval :=
+  match l with [] => XNum 0 | y :: r => xbin Qplus (expo_value y) (xsum r) end.
+Fixpoint xprod (l : list expr) : xval :=
+  match l with [] => XNum 1 | y :: r => xbin Qmult (expo_value y) (xprod r) end.
+
+Lemma expo_add l : expo_value (EAdd l) = xsum l.
+Proof. cbn [expo_value]. induction l as [|a l IH]; cbn [xsum]; [reflexivity | rewrite <- IH; reflexivity]. Qed.
+Lemma expo_mul l : expo_value (EMul l) = xprod l.
+Proof. cbn [expo_value]. induction l as [|a l IH]; cbn [xprod]; [reflexivity | rewrite <- IH; reflexivity]. Qed.
+
+Lemma xbin_num op a b m : xbin op a b = XNum m -> exists x y, a = XNum x /\ b = XNum y /\ m = op x y.
+Proof. destruct a, b; cbn; try discriminate. intros [= <-]. eexists _, _. repeat split. Qed.
+
+Fixpoint xsumi (G : env) (l : list expr) : xval :=
+  match l with [] => XNum 0 | y :: r => xbin Qplus (expo_infer G y) (xsumi G r) end.
+Fixpoint xprodi (G : env) (l : list expr) : xval :=
+  match l with [] => XNum 1 | y :: r => xbin Qmult (expo_infer G y) (xprodi G r) end.
+Lemma expoi_add G l : expo_infer G (EAdd l) = xsumi G l.
+Proof. cbn [expo_infer]. induction l as [|a l IH]; cbn [xsumi]; [reflexivity | rewrite <- IH; reflexivity]. Qed.
+Lemma expoi_mul G l : expo_infer G (EMul l) = xprodi G l.
+Proof. cbn [expo_infer]. induction l as [|a l IH]; cbn [xprodi]; [reflexivity | rewrite <- IH; reflexivity]. Qed.
+
+(* a closed exponent (no variable) is read the same with and without initial-value substitution *)
+Lemma expo_infer_of_value G : forall x m, expo_value x = XNum m -> expo_infer G x = XNum m.
+Proof.
+  induction x using expr_ind'; intros m Hm; try (cbn [expo_value] in Hm; discriminate).
+  - exact Hm.
+  - exact Hm.
+  - rewrite expo_add in Hm. rewrite expoi_add. revert m Hm.
+    induction H as [|x r Px _ IH]; cbn [xsum xsumi]; intros m Hm; [exact Hm|].
+    apply xbin_num in Hm as [a [b [Ha [Hb ->]]]]. rewrite (Px _ Ha), (IH _ Hb). reflexivity.
+  - rewrite expo_mul in Hm. rewrite expoi_mul. revert m Hm.
+    induction H as [|x r Px _ IH]; cbn [xprod xprodi]; intros m Hm; [exact Hm|].
+    apply xbin_num in Hm as [a [b [Ha [Hb ->]]]]. rewrite (Px _ Ha), (IH _ Hb). reflexivity.
+Qed.
+
+Lemma num_guard G : forall x m, expo_value x = XNum m -> guard G false x = true.
+Proof.
+  induction x using expr_ind'; intros m Hm; try (cbn [expo_value] in Hm; discriminate); cbn [guard negb andb];
+    try reflexivity.
+  - rewrite expo_add in Hm. revert m Hm. induction H as [|x r Px _ IH]; cbn [xsum forallb]; intros m Hm; [reflexivity|].
+    apply xbin_num in Hm as [a [b [Ha [Hb _]]]]. rewrite (Px _ Ha), (IH _ Hb). reflexivity.
+  - rewrite expo_mul in Hm. revert m Hm. induction H as [|x r Px _ IH]; cbn [xprod forallb]; intros m Hm; [reflexivity|].
+    apply xbin_num in Hm as [a [b [Ha [Hb _]]]]. rewrite (Px _ Ha), (IH _ Hb). reflexivity.
+Qed.
+
+Lemma num_exp_value x : num_exp x = true -> exists m, expo_value x = XNum m.
+Proof. unfold num_exp. destruct (expo_value x) as [m| |]; try discriminate. exists m; reflexivity. Qed.
+
 (* ---- consistency (CellML rules), units of operands as inferred -------------------------------------- *)
 Section Consistent.
   Variable G : env.
@@ -12,8 +62,8 @@ Section Consistent.
     exists u v, unit_of G a = Some u /\ unit_of G b = Some v /\ ueq (expand G u) (expand G v).
   (* exponent: the pint unit is the empty container *)
   Definition unit_is_empty (x : expr) : Prop := exists u, unit_of G x = Some u /\ ueq u uone.
-  (* function argument: dimensionless with scale 1 *)
-  Definition unit_is_one (x : expr) : Prop := exists u, unit_of G x = Some u /\ ueq (expand G u) uone.
+  (* function argument: no dimensions and SI scale 1 *)
+  Definition unit_is_one (x : expr) : Prop := exists u, unit_of G x = Some u /\ dim_dimless G u = true.
 
   Fixpoint consistent (e : expr) : Prop :=
     match e with
@@ -91,8 +141,20 @@ Qed.
 Section ConsistentP.
   Variable G : env.
 
-  Lemma lit_guard x : lit_exp G x = true -> guard G false x = true.
-  Proof. destruct x; cbn; try discriminate; reflexivity. Qed.
+  (* functions other than Abs / floor / ceiling: the (only) argument is dimensionless with scale 1 *)
+  Lemma infer_fn_other f (r0 r : qu) :
+    (f =? fn_abs)%Z = false -> (f =? fn_floor)%Z || (f =? fn_ceiling)%Z = false ->
+    infer_fn G f [r0] = UOk r -> dim_dimless G (fst r0) = true /\ fst r = [].
+  Proof.
+    intros Hf Hfc. unfold infer_fn. rewrite Hf, Hfc.
+    destruct ((f =? fn_log)%Z || (f =? fn_factorial)%Z || is_trig f).
+    { destruct (dim_dimless G (fst r0)); [|discriminate]. intros [= <-]. split; reflexivity. }
+    destruct (f =? fn_exp)%Z.
+    { destruct (dim_dimless G (fst r0)); [|discriminate].
+      destruct (snd r0) as [q [|]| | |]; try (intros [= <-]; split; reflexivity).
+      destruct (Qle_bool 710 q); [discriminate|]. intros [= <-]; split; reflexivity. }
+    destruct (dim_dimless G (fst r0)); [|discriminate]. intros [= <-]. split; reflexivity.
+  Qed.
 
   Definition Pc (e : expr) : Prop :=
     (forall r, infer G e = UOk r -> guard G false e = true -> consistent G e) /\
@@ -122,12 +184,12 @@ Section ConsistentP.
       apply infers_Forall2 in Hrs. change (call G l). eapply call_of; eassumption.
     - (* Pow *)
       cbn [infer] in Hi. apply bindr_ok in Hi as [rb [Hb Hi]]. apply bindr_ok in Hi as [rx [Hx Hi]].
-      apply andb_prop in Hg as [Hgb Hl]. cbn [consistent]. repeat split.
+      apply andb_prop in Hg as [Hgb Hl]. destruct (num_exp_value _ Hl) as [m Hm]. cbn [consistent]. repeat split.
       + apply (proj1 IHe1 rb Hb Hgb).
-      + apply (proj1 IHe2 rx Hx (lit_guard _ Hl)).
+      + apply (proj1 IHe2 rx Hx (num_guard G _ _ Hm)).
       + exists (fst rx). split; [apply unit_of_ok; exact Hx|].
-        unfold infer_pow in Hi. destruct rb as [ub mb], rx as [ux mx]. cbn [fst].
-        destruct (syn_dimless ux) eqn:Hd; [|discriminate]. unfold syn_dimless in Hd.
+        unfold infer_pow in Hi. destruct rb as [ub mb].
+        destruct (syn_dimless (fst rx)) eqn:Hd; [|discriminate]. unfold syn_dimless in Hd.
         apply ueqb_spec. exact Hd.
     - (* Fn *)
       rewrite infer_fn_eq in Hi. apply bindr_ok in Hi as [rs [Hrs Hs]]. apply infers_Forall2 in Hrs.
@@ -136,11 +198,11 @@ Section ConsistentP.
       + destruct (Z.eqb_spec f fn_abs) as [->|Hna]; [left; reflexivity|].
         destruct (Z.eqb_spec f fn_floor) as [->|Hnf]; [right; left; reflexivity|].
         destruct (Z.eqb_spec f fn_ceiling) as [->|Hnc]; [right; right; left; reflexivity|].
-        right; right; right. intros x Hx. rewrite forallb_forall in Hargs. specialize (Hargs x Hx).
-        unfold arg_ok in Hargs. destruct (unit_of G x) as [n|] eqn:Hu; [|discriminate].
-        replace ((f =? fn_floor)%Z || (f =? fn_ceiling)%Z) with false in Hargs
-          by (symmetry; apply orb_false_intro; apply Z.eqb_neq; assumption).
-        exists n. split; [exact Hu | apply ueqb_spec; exact Hargs].
+        right; right; right. cbn [orb] in Hargs. destruct l as [|x0 [|y l']]; try discriminate.
+        inversion Hrs as [|? r0 ? rs' Hx0 Hrs']; subst. inversion Hrs'; subst.
+        intros x [<-|[]]. exists (fst r0). split; [apply unit_of_ok; exact Hx0|].
+        apply (infer_fn_other f r0 rr); [apply Z.eqb_neq; exact Hna | | exact Hs].
+        apply orb_false_intro; apply Z.eqb_neq; assumption.
     - (* Rel, condition mode *)
       apply andb_prop in Hg as [Hg Heq]. apply andb_prop in Hg as [Hga Hgb].
       destruct (unit_of G e1) as [u|] eqn:Hu; [|discriminate].
@@ -276,40 +338,33 @@ Section Sound.
     - apply IH; assumption.
   Qed.
 
-  Lemma arg_ok_sc f x : arg_ok G f x = true -> exists n, unit_of G x = Some n /\ sc G n = 1.
+  Lemma arg_ok_sc x : arg_ok G x = true -> exists n, unit_of G x = Some n /\ sc G n = 1.
   Proof.
     unfold arg_ok. destruct (unit_of G x) as [n|]; [|discriminate]. intros H. exists n. split; [reflexivity|].
-    destruct ((f =? fn_floor)%Z || (f =? fn_ceiling)%Z); [apply sc_scale_one | apply sc_equiv_one]; exact H.
+    apply sc_scale_one; exact H.
   Qed.
 
-  (* unit returned by infer_fn for anything but Abs: dimensionless, or the unit of the first argument *)
-  Lemma infer_fn_unit f rs r : (f =? fn_abs)%Z = false -> infer_fn G f rs = UOk r ->
-    fst r = [] \/ exists r0 rest, rs = r0 :: rest /\ fst r = fst r0.
-  Proof.
-    intros Hf. unfold infer_fn. rewrite Hf.
-    destruct ((f =? fn_floor)%Z || (f =? fn_ceiling)%Z).
-    { destruct rs as [|r0 rest]; [discriminate|]. intros [= <-]. right. exists r0, rest. split; reflexivity. }
-    destruct ((f =? fn_log)%Z || (f =? fn_factorial)%Z || is_trig f).
-    { destruct rs as [|r0 rest]; [discriminate|]. destruct (dim_dimless G (fst r0)); [|discriminate].
-      intros [= <-]. left; reflexivity. }
-    destruct (f =? fn_exp)%Z.
-    { destruct rs as [|r0 rest]; [discriminate|]. destruct (dim_dimless G (fst r0)); [|discriminate].
-      destruct (snd r0) as [q [|]| | |]; try (intros [= <-]; left; reflexivity).
-      destruct (Qle_bool 710 q); [discriminate|]. intros [= <-]; left; reflexivity. }
-    destruct rs as [|r0 [|r1 rest]]; try discriminate.
-    destruct (dim_dimless G (fst r0)); [|discriminate]. intros [= <-]. left; reflexivity.
-  Qed.
+  Lemma dim_dimless_sc n : dim_dimless G n = true -> sc G n = 1.
+  Proof. unfold dim_dimless. intros H. apply andb_prop in H as [_ H]. apply sc_scale_one. exact H. Qed.
 
-  Lemma lit_value x rx : lit_exp G x = true -> infer G x = UOk rx ->
-    exists m fx, rx = ([], MNum m fx) /\ eN x = Some (VR (Q2R m)) /\ eSI x = Some (VR (Q2R m)).
+  Lemma expo_sound : forall x m, expo_value x = XNum m -> eN x = Some (VR (Q2R m)).
   Proof.
-    destruct x; cbn [lit_exp]; try discriminate; intros Hl Hi; cbn [infer] in Hi.
-    - injection Hi as <-. eexists _, _. repeat split; reflexivity.
-    - apply andb_prop in Hl as [Hid Hl].
-      destruct (lookup_unit G u) as [[|a n]|] eqn:Hu; try discriminate. injection Hi as <-.
-      eexists _, _. split; [reflexivity|].
-      unfold evalN, evalSI. cbn [eval]. unfold qN, qSI, qval. rewrite Hu. cbn [option_map].
-      apply negb_true_iff in Hid. rewrite Hid, sc_nil. split; [reflexivity | f_equal; f_equal; lra].
+    induction x using expr_ind'; intros m Hm; try (cbn [expo_value] in Hm; discriminate).
+    - cbn [expo_value] in Hm. injection Hm as <-. reflexivity.
+    - cbn [expo_value] in Hm. destruct (id <? -1)%Z eqn:E; [discriminate|]. injection Hm as <-.
+      unfold evalN. cbn [eval]. unfold qN, qval. rewrite E. reflexivity.
+    - rewrite expo_add in Hm. rewrite sN_add.
+      assert (K : osum eN l = Some (Q2R m)).
+      { revert m Hm. induction H as [|x r Px _ IH]; cbn [xsum osum]; intros m Hm.
+        - injection Hm as <-. f_equal. unfold Q2R; cbn; lra.
+        - apply xbin_num in Hm as [a [b [Ha [Hb ->]]]]. rewrite (Px _ Ha), (IH _ Hb), Q2R_plus. reflexivity. }
+      rewrite K. reflexivity.
+    - rewrite expo_mul in Hm. rewrite sN_mul.
+      assert (K : oprod eN l = Some (Q2R m)).
+      { revert m Hm. induction H as [|x r Px _ IH]; cbn [xprod oprod]; intros m Hm.
+        - injection Hm as <-. f_equal. unfold Q2R; cbn; lra.
+        - apply xbin_num in Hm as [a [b [Ha [Hb ->]]]]. rewrite (Px _ Ha), (IH _ Hb), Q2R_mult. reflexivity. }
+      rewrite K. reflexivity.
   Qed.
 
   Lemma sound_all : forall e, Ps e.
@@ -345,11 +400,14 @@ Section Sound.
       match goal with |- context [oprod ?f l] => destruct (oprod f l) end; reflexivity.
     - (* Pow *)
       cbn [infer] in Hi. apply bindr_ok in Hi as [rb [Hb Hi]]. apply bindr_ok in Hi as [rx [Hx Hi]].
-      apply andb_prop in Hg as [Hgb Hl].
-      destruct (lit_value e2 rx Hl Hx) as [m [fx [-> [HxN HxSI]]]].
-      destruct rb as [ub mb]. unfold infer_pow in Hi.
-      change (syn_dimless []) with true in Hi. cbn [negb] in Hi.
+      apply andb_prop in Hg as [Hgb Hl]. destruct (num_exp_value _ Hl) as [m Hm].
+      destruct rb as [ub mb]. unfold infer_pow in Hi. rewrite (expo_infer_of_value G _ _ Hm) in Hi.
+      destruct (syn_dimless (fst rx)) eqn:Hdx; [|discriminate]. cbn [negb] in Hi.
       apply bindr_ok in Hi as [mr [_ Hi]]. injection Hi as <-. cbn [fst].
+      pose proof (expo_sound e2 m Hm) as HxN.
+      assert (HxSI : eSI e2 = Some (VR (Q2R m))).
+      { rewrite <- HxN. apply (rel_at_one e2 (fst rx)); [apply sc_syn_dimless; exact Hdx|].
+        apply (proj1 IHe2 rx Hx (num_guard G _ _ Hm)). }
       pose proof (proj1 IHe1 (ub, mb) Hb Hgb) as Hrel. cbn [fst] in Hrel.
       unfold rel_at, evalN, evalSI in *. cbn [eval]. rewrite Hrel, HxN, HxSI.
       match goal with |- context [eval ?a ?b ?c ?d ?f ?g e1] => destruct (eval a b c d f g e1) as [[x|bx]|] end;
@@ -373,14 +431,21 @@ Section Sound.
         destruct (eN x) as [[a0|bx]|];
           cbn [option_map scale_val]; try reflexivity.
         rewrite abs_scale by apply sc_pos. destruct (fsem fn_abs [a0]); reflexivity.
-      + pose proof (same_args (arg_ok G f) l rs (arg_ok_sc f) H Hrs Hgl Hargs) as Hsame.
-        assert (E1 : sc G (fst rr) = 1).
-        { destruct (infer_fn_unit f rs rr Hf Hs) as [E | [r0 [rest [-> E]]]]; [rewrite E; apply sc_nil|].
-          rewrite E. inversion Hrs as [|x0 ? l0 ? Hx0 _]; subst. cbn [forallb] in Hargs.
-          apply andb_prop in Hargs as [Ha0 _]. destruct (arg_ok_sc f x0 Ha0) as [n [Hu Hn]].
-          rewrite (unit_of_ok _ _ _ Hx0) in Hu. injection Hu as ->. exact Hn. }
-        apply one_rel_at; [exact E1|]. rewrite sSI_fn, sN_fn.
-        rewrite (oreals_same _ _ l l Hsame). reflexivity.
+      + destruct ((f =? fn_floor)%Z || (f =? fn_ceiling)%Z) eqn:Hfc.
+        * pose proof (same_args (arg_ok G) l rs arg_ok_sc H Hrs Hgl Hargs) as Hsame.
+          assert (E1 : sc G (fst rr) = 1).
+          { unfold infer_fn in Hs. rewrite Hf, Hfc in Hs. destruct rs as [|r0 rest]; [discriminate|].
+            injection Hs as <-. cbn [fst]. inversion Hrs as [|x0 ? l0 ? Hx0 _]; subst. cbn [forallb] in Hargs.
+            apply andb_prop in Hargs as [Ha0 _]. destruct (arg_ok_sc x0 Ha0) as [n [Hu Hn]].
+            rewrite (unit_of_ok _ _ _ Hx0) in Hu. injection Hu as ->. exact Hn. }
+          apply one_rel_at; [exact E1|]. rewrite sSI_fn, sN_fn.
+          rewrite (oreals_same _ _ l l Hsame). reflexivity.
+        * destruct l as [|x0 [|y l']]; try discriminate.
+          inversion Hrs as [|? r0 ? rs' Hx0 Hrs']; subst. inversion Hrs'; subst.
+          destruct (infer_fn_other G f r0 rr Hf Hfc Hs) as [Hd Er].
+          inversion H as [|? ? Px _]; subst. cbn [forallb] in Hgl. apply andb_prop in Hgl as [Hgx _].
+          pose proof (rel_at_one x0 (fst r0) (dim_dimless_sc _ Hd) (proj1 Px r0 Hx0 Hgx)) as Hx.
+          apply one_rel_at; [rewrite Er; apply sc_nil|]. rewrite sSI_fn, sN_fn. cbn [oreals]. rewrite Hx. reflexivity.
     - (* Deriv *)
       cbn [infer] in Hi. apply bindr_ok in Hi as [ry [Hy Hi]]. apply bindr_ok in Hi as [rt [Ht Hi]].
       unfold infer_div in Hi. apply bindr_ok in Hi as [md [_ Hi]]. injection Hi as <-. cbn [fst].
@@ -466,10 +531,11 @@ Proof.
   - intros G l rs r0 Hrs Hhd Hf. rewrite infer_add, Hrs. cbn [bindr]. unfold infer_same.
     destruct rs as [|r rest]; [discriminate|]. injection Hhd as ->. rewrite Hf. reflexivity.
   - intros G b x rb rx Hb Hx Hd. cbn [infer]. rewrite Hb, Hx. cbn [bindr]. unfold infer_pow.
-    destruct rb, rx. cbn [fst] in Hd. rewrite Hd. reflexivity.
+    destruct rb. rewrite Hd. reflexivity.
 Qed.
 
-(* F6: two exponents with the same value 3 -- the quantity _3 and the sum _1 + _2 -- give inequivalent units *)
+(* F6 (repaired): the exponent is read from the exponent expression, so the quantity _3 and the sum _1 + _2
+   give the same unit mV^3, and both are inside the guard *)
 Definition G_w : env :=
   mkEnv [[(2%Z, (-3 # 1)%Q); (5%Z, (-3 # 1)%Q); ((-2)%Z, 1%Q); ((-1)%Z, 2%Q); ((-3)%Z, (-3 # 1)%Q); ((-4)%Z, (-1 # 1)%Q)]]   (* atom 0 = mV *)
         [[]; [(0%Z, 1%Q)]]                                                                  (* dimensionless, mV *)
@@ -477,20 +543,12 @@ Definition G_w : env :=
 Definition x_sum : expr := EAdd [EQty 0 1 0; EQty 1 2 0].
 Definition x_lit : expr := EQty 2 3 0.
 
-Lemma infer_refuted_compound_exponent :
-  exists G a x x' r r',
-    expo_value x = XNum 3 /\ expo_value x' = XNum 3 /\
-    infer G (EPow a x) = UOk r /\ infer G (EPow a x') = UOk r' /\
-    guard G false (EPow a x') = true /\ guard G false (EPow a x) = false /\
-    sem_equiv G (fst r) (upow [(0%Z, 1%Q)] 1) = true /\          (* mV   *)
-    sem_equiv G (fst r') (upow [(0%Z, 1%Q)] 3) = true /\         (* mV^3 *)
-    sem_equiv G (fst r) (fst r') = false.
-Proof.
-  exists G_w, (EVar 0), x_sum, x_lit. eexists. eexists.
-  split; [vm_compute; reflexivity|]. split; [vm_compute; reflexivity|].
-  split; [vm_compute; reflexivity|]. split; [vm_compute; reflexivity|].
-  repeat split; vm_compute; reflexivity.
-Qed.
+Lemma infer_compound_exponent_repaired :
+  exists r r',
+    infer G_w (EPow (EVar 0) x_sum) = UOk r /\ infer G_w (EPow (EVar 0) x_lit) = UOk r' /\
+    guard G_w false (EPow (EVar 0) x_sum) = true /\ guard G_w false (EPow (EVar 0) x_lit) = true /\
+    sem_equiv G_w (fst r) (upow [(0%Z, 1%Q)] 3) = true /\ sem_equiv G_w (fst r) (fst r') = true.
+Proof. eexists. eexists. split; [vm_compute; reflexivity|]. split; [vm_compute; reflexivity|]. repeat split. Qed.
 
 (* the hypotheses are satisfiable: Eval.pow_sem satisfies the power law, Rabs the Abs law *)
 Lemma pow_sem_law : psem_law pow_sem.
